@@ -48,10 +48,38 @@ def add_assets(prog, rng, name_pools=NAME_POOLS):
                 m["css"] = css if r < 0.5 else css[0] if r < 0.65 else {"all": css[:1], "print": css[1:] or [MEDIA_CSS[0]]}
             if m:
                 spec["media"] = m
-        if i > 0 and rng.random() < 0.2:
+        if i > 0 and rng.random() < 0.3:
             spec["base"] = rng.choice(names[:i])
+            if i > 1 and rng.random() < 0.5:
+                # multiple inheritance: class C(A, B) - only when Python can linearise it
+                b2 = rng.choice(names[:i])
+                if b2 != spec["base"]:
+                    spec["base2"] = b2
+                    try:
+                        py_mro(prog["classes"], cname)
+                    except TypeError:
+                        del spec["base2"]
+        if i > 0 and spec.get("media") is not None and rng.random() < 0.3:
+            # Media.extend: no base at all, or an explicit list of component classes (need not be bases)
+            spec["media"]["extend"] = False if rng.random() < 0.4 else rng.sample(names[:i], rng.randint(1, min(2, i)))
         spec["namekind"] = rng.choice(name_pools)
     return prog
+
+
+def direct_bases(spec):
+    return [b for b in (spec.get("base"), spec.get("base2")) if b]
+
+
+def py_mro(classes, cname):
+    """Python's own linearisation of the generated hierarchy (dummy classes; TypeError if there is none)."""
+    made = {}
+
+    def mk(c):
+        if c not in made:
+            made[c] = type(c, tuple(mk(b) for b in direct_bases(classes[c])) or (object,), {})
+        return made[c]
+
+    return [k.__name__ for k in mk(cname).__mro__ if k is not object]
 
 
 def own_media(spec):
@@ -78,22 +106,21 @@ def expected_assets(prog, rendered_classes):
     classes = prog["classes"]
 
     def inherited(cname, attr):
-        # js/css pair rule: nearest class defining it
-        cur = cname
-        while cur:
+        # js/css pair rule: nearest class in the MRO defining it
+        for cur in py_mro(classes, cname):
             if classes[cur].get(attr) is not None:
                 return classes[cur][attr]
-            cur = classes[cur].get("base")
         return None
 
     def media_of(cname):
-        js, css = [], []
-        cur = cname
-        while cur:
-            j, c = own_media(classes[cur])
+        # own Media + the Media of the bases selected by Media.extend (True: the direct bases, False: none, list: those classes)
+        js, css = own_media(classes[cname])
+        ext = (classes[cname].get("media") or {}).get("extend", True)
+        selected = direct_bases(classes[cname]) if ext is True else [] if ext is False else list(ext)
+        for b in selected:
+            j, c = media_of(b)
             js += j
             css += c
-            cur = classes[cur].get("base")
         return js, css
 
     inline_js, inline_css, mjs, mcss = [], [], set(), set()
